@@ -1,7 +1,7 @@
 (* C03 correspondence: histories executed on a real database + Authenticator by the Go harness
    (harness/db/verif_c03_test.go) are re-run here on the model with vm_compute and the observables compared
    (channel and role sets as sets). *)
-From SG Require Export Base.Prelude Base.Bytes C03.Access.
+From SG Require Export Base.Prelude Base.Bytes C03.Access C03.Effective C03.AccessX.
 Open Scope N_scope.
 
 Definition out_eqb (a b : out) : bool :=
@@ -14,12 +14,51 @@ Definition out_eqb (a b : out) : bool :=
   | _, _ => false
   end.
 
+(* ---- extended histories (AccessX.v): sequences, histories, user-context writes, the access API ----
+   TimedSets are compared as maps (same names, same sequence for every name), histories name by name (the entries
+   of a name in order), channel-name lists as sets. *)
+Definition tset_eqb (a b : tset) : bool :=
+  set_eqb (keys a) (keys b) && forallb (fun c => since a c =? since b c) (keys a).
+Definition pair_eqb (a b : N * N) : bool := (fst a =? fst b) && (snd a =? snd b).
+Definition hist_eqb (a b : hist) : bool :=
+  forallb (fun c => list_eqb pair_eqb (entries a c) (entries b c)) (map fst a ++ map fst b).
+Definition gc_eqb (a b : gc) : bool :=
+  tset_eqb (g_x a) (g_x b) && tset_eqb (g_c a) (g_c b) && (g_inv a =? g_inv b) && hist_eqb (g_hist a) (g_hist b).
+Definition ask_eqb (a b : bool * (tset * list N)) : bool :=
+  Bool.eqb (fst a) (fst b) && tset_eqb (fst (snd a)) (fst (snd b)) && set_eqb (snd (snd a)) (snd (snd b)).
+
+(* timed access maps: the same TimedSet for every key *)
+Definition tmap_eqb {K} (eqb : K -> K -> bool) (a b : list (K * tset)) : bool :=
+  forallb (fun k => tset_eqb (tgrants eqb a k) (tgrants eqb b k)) (map fst a ++ map fst b).
+
+Definition xout_eqb (a b : xout) : bool :=
+  match a, b with
+  | XStatus x, XStatus y => Bool.eqb x y
+  | XUser None, XUser None => true
+  | XUser (Some (i, ro, ch, h, rh)), XUser (Some (i', ro', ch', h', rh')) =>
+    tset_eqb i i' && tset_eqb ro ro' && tset_eqb ch ch' && hist_eqb h h' && hist_eqb rh rh'
+  | XRole None, XRole None => true
+  | XRole (Some (ch, h)), XRole (Some (ch', h')) => tset_eqb ch ch' && hist_eqb h h'
+  | XPeekU None, XPeekU None => true
+  | XPeekU (Some (c, r)), XPeekU (Some (c', r')) => gc_eqb c c' && gc_eqb r r'
+  | XPeekR None, XPeekR None => true
+  | XPeekR (Some (d, g)), XPeekR (Some (d', g')) => Bool.eqb d d' && gc_eqb g g'
+  | XDoc a r, XDoc a' r' => tmap_eqb pid_eqb a a' && tmap_eqb N.eqb r r'
+  | XQuery None, XQuery None => true
+  | XQuery (Some (cs, qs)), XQuery (Some (cs', qs')) => list_eqb Bool.eqb cs cs' && list_eqb ask_eqb qs qs'
+  | _, _ => false
+  end.
+
 Inductive case :=
-| Case (ops : list op) (observed : list out).
+| Case (ops : list op) (observed : list out)
+(* a history on the extended model: the collection is the default one?, the operations with the sequences the
+   implementation allocated, the observables; the sequences must satisfy the hypothesis of the theorems (xwf) *)
+| XCase (def : bool) (ops : list xop) (observed : list xout).
 
 Definition check (c : case) : bool :=
   match c with
   | Case ops observed => list_eqb out_eqb (outs init ops) observed
+  | XCase def ops observed => xwf (xinit def) ops && list_eqb xout_eqb (xouts (xinit def) ops) observed
   end.
 
 Definition mismatches (cs : list case) : list N := failing check cs.
